@@ -46,6 +46,7 @@ type verifC01CH struct {
 	tr      *verifkit.Trace
 	tagHost uint32
 	release chan struct{}
+	failSeq atomic.Int64
 }
 
 // verifC01MarkerIDs finds the marker rows in a RowBinary body.  Row layout (appendKeys):
@@ -89,8 +90,20 @@ func (c *verifC01CH) handler(w http.ResponseWriter, r *http.Request) {
 		c.mu.Unlock()
 	}
 	if mode == "fail" || mode == "dead" || mode == "stall" {
-		w.Header().Set("X-ClickHouse-Exception-Code", "241")
-		w.WriteHeader(500)
+		// insert failures come in several flavours: a ClickHouse exception (500 + exception
+		// header), and failures that never reached ClickHouse's exception path (a proxy's 502/503/504,
+		// a plain 500 while the server restarts) which carry no exception header
+		switch c.failSeq.Add(1) % 4 {
+		case 0:
+			w.Header().Set("X-ClickHouse-Exception-Code", "241")
+			w.WriteHeader(500)
+		case 1:
+			w.WriteHeader(503)
+		case 2:
+			w.WriteHeader(502)
+		default:
+			w.WriteHeader(500)
+		}
 		_, _ = w.Write([]byte("simulated insert failure"))
 		return
 	}
